@@ -702,6 +702,10 @@ fn cmd_order(rounds: usize) -> i32 {
 }
 
 fn main() {
+    // The rounding EPOCH of AckDeadline is a process-wide lazy static fixed by the first AckDeadline::new call. Fix it
+    // at process start, before any (paused) runtime advances its virtual clock: every later runtime starts its clock at
+    // the real `now`, i.e. after EPOCH, as in production where time never runs backwards.
+    rt().block_on(async { let _ = AckDeadline::new(&Instant::now()); });
     let args: Vec<String> = std::env::args().collect();
     let code = match args.get(1).map(|s| s.as_str()) {
         Some("history") => cmd_history(args[2].parse().unwrap(), args[3].parse().unwrap(), args[4].parse().unwrap()),
